@@ -433,8 +433,13 @@ pub fn run_sharded(def: &PropertyDef, cfg: &Cfg) -> Stats {
     let dir = scratch_base().join(format!("zv-shards-{}-{}", cfg.prop, std::process::id()));
     let _ = std::fs::remove_dir_all(&dir);
     std::fs::create_dir_all(&dir).expect("create shard dir");
+    // development aid: run one generator only; the run is then marked and can never count as the property's check
+    let only = std::env::var("ZV_ONLY_GEN").ok();
+    if let Some(only) = &only {
+        merged.harness_error(format!("ZV_ONLY_GEN={only}: partial run, not a verdict on the property"));
+    }
     for generator in (def.generators)(cfg) {
-        if generator.total == 0 {
+        if generator.total == 0 || only.as_deref().is_some_and(|o| o != generator.name) {
             continue;
         }
         let n = (cfg.jobs as u64).min(generator.total).max(1);
